@@ -53,7 +53,7 @@ ASSUMPTIONS = [
 
 PREFIXES = ['none', 'riemann', 'riemann_evicted', 'weyl_then_riemann',
             'eb_first', 'kretschmann', 'random', 'faulted', 'faulted',
-            'faulted']
+            'faulted', 'psi4lm_first', 'other_object']
 POST = ['weyl', 'symmetries', 'eb_n', 'eb_u', 'tetrad', 'psi', 'invariants']
 
 
@@ -86,6 +86,22 @@ def generate(rng, tier):
         ops = [{'op': 'GET', 'key': g.pick(
             ['Kretschmann', 'st_Riemann_uddd4', 'st_RicciS',
              'Einsteindown4'])}]
+    elif pat == 'psi4lm_first':
+        ops = [{'op': 'GET', 'key': 'Psi4_lm'}]
+        if g.chance(0.5):
+            ops.append({'op': 'GET', 'key': g.pick(
+                ['Weyl_Psi', 'Weyl_invariants', 'st_Weyl_down4'])})
+    elif pat == 'other_object':
+        # another AurelCore of the same session (another time slice) is asked
+        # for curvature first / in between
+        ops = [{'op': 'OTHER', 'key': g.pick(
+            ['bweyl_n_down3', 'st_Riemann_down4', 'st_Weyl_down4',
+             'Momentum_Escale', 'Weyl_Psi', 'eweyl_n_down3'])}]
+        if g.chance(0.5):
+            ops.append({'op': 'GET', 'key': g.pick(
+                ['st_Riemann_down4', 'eweyl_n_down3', 'Ktrace'])})
+            ops.append({'op': 'OTHER', 'key': g.pick(
+                ['st_Weyl_down4', 'bweyl_n_down3', 'Kretschmann'])})
     elif pat == 'faulted':
         # an allocation fails inside the request that builds the Weyl tensor
         # (or one of its ingredients), late in the request where most state
